@@ -197,18 +197,31 @@ def r_heads(prog, tier):
     # negra heuristic: leftmost HD, else rightmost NK, else leftmost
     g = prog.func('transform', 'negra_mark_heads')
     gc = g.cfg
+    idxv = None
+    for n in gc.eval_nodes():
+        if n.kind == 'stmt' and isinstance(n.ast, ast.Assign) and unparse(n.ast.value) == 'True' \
+                and unparse(n.ast.targets[0]).endswith("].data['head']"):
+            idxv = unparse(n.ast.targets[0].value.value.slice)
+    E = None
+    for n in gc.nodes:
+        if n.kind == 'assume':
+            fa = norm_test(n.ast, n.pol)
+            if fa[0] == 'haskey' and fa[2] == 'HD':
+                E = fa[1]
     idxdefs = {}
     for n in gc.eval_nodes():
-        if n.kind == 'stmt' and isinstance(n.ast, ast.Assign) and unparse(n.ast.targets[0]) == 'index':
+        if n.kind == 'stmt' and isinstance(n.ast, ast.Assign) and idxv and unparse(n.ast.targets[0]) == idxv:
             facts = tuple(x[0] for x in facts_at(gc, n.id) if x[0][0] == 'haskey')
             idxdefs[unparse(n.ast.value)] = facts
     want = {
         '0': (),
-        "edges.index('HD')": (('haskey', 'edges', 'HD', True),),
-        "len(edges) - 1 - edges[::-1].index('NK')": (('haskey', 'edges', 'HD', False), ('haskey', 'edges', 'NK', True)),
+        "%s.index('HD')" % E: (('haskey', E, 'HD', True),),
+        "len(%s) - 1 - %s[::-1].index('NK')" % (E, E): (('haskey', E, 'HD', False), ('haskey', E, 'NK', True)),
     }
-    ed = [unparse(v) for (_, v) in name_defs(g, 'edges') if isinstance(v, ast.AST)]
-    ok = idxdefs == want and len(ed) == 1 and ed[0].startswith("[child.data['edge'] for child in ")
+    ed = [v for (_, v) in name_defs(g, E) if isinstance(v, ast.AST)] if E else []
+    ed_ok = len(ed) == 1 and isinstance(ed[0], ast.ListComp) and not ed[0].generators[0].ifs \
+        and unparse(ed[0].elt) == "%s.data['edge']" % unparse(ed[0].generators[0].target)
+    ok = idxdefs == want and ed_ok
     obs.append(Ob('R-HEADS/NEGRA', g.fq, 'NeGra heuristic: leftmost HD, else rightmost NK, else leftmost child', ok,
                   'index definitions and their guards match' if ok else 'index definitions %s' % idxdefs,
                   construct='negra-idx', line=g.node.lineno))
@@ -218,8 +231,8 @@ def r_heads(prog, tier):
     kw = g.kwarg
     pres = {}
     for n in gc.eval_nodes():
-        if n.kind == 'stmt' and isinstance(n.ast, ast.Assign) and unparse(n.ast.targets[0]) == 'rules' \
-                and unparse(n.ast.value).startswith('transformconst.'):
+        if n.kind == 'stmt' and isinstance(n.ast, ast.Assign) and isinstance(n.ast.targets[0], ast.Name) \
+                and unparse(n.ast.value).startswith('transformconst.HEAD_RULES'):
             for (fa, _) in facts_at(gc, n.id):
                 if fa[0] == 'cmp' and fa[1] == "%s['mark_heads_preset']" % kw and fa[2] == '==':
                     pres[fa[3].strip("'")] = unparse(n.ast.value)
@@ -234,7 +247,9 @@ def r_heads(prog, tier):
                   'presets %s, unknown preset raises %s, missing source raises %s' % (pres, unknown, nosrc),
                   construct='preset', line=g.node.lineno))
     call_ok = any(isinstance(n, ast.Call) and prog.callee(n, g) == ('transformconst', 'get_headpos_by_rule')
-                  and len(n.args) == 3 and unparse(n.args[2]) == 'rules' for n in walk_own(g.node))
+                  and len(n.args) == 3 and isinstance(n.args[2], ast.Name) and any(
+                      isinstance(v, ast.AST) and unparse(v).startswith('transformconst.HEAD_RULES')
+                      for (_, v) in name_defs(g, n.args[2].id)) for n in walk_own(g.node))
     lab_ok = sum(1 for n in walk_own(g.node) if isinstance(n, ast.Attribute) and n.attr == 'label'
                  and isinstance(n.value, ast.Call) and prog.callee(n.value, g) == ('trees', 'parse_label')) >= 2
     obs.append(Ob('R-HEADS/PRESET', g.fq, 'parent and child categories are handed to the rules without decorations', call_ok and lab_ok,
@@ -268,9 +283,10 @@ def r_flags(prog, tier):
     L = loops[0]
     sv = unparse(L.ast.target)
     hb = None
-    for (n, v) in name_defs(f, 'h_block'):
-        if isinstance(v, ast.Constant):
-            hb = v.value
+    for nm2 in sorted(f.locals):
+        for (n, v) in name_defs(f, nm2):
+            if isinstance(v, ast.Constant) and v.value == 'head_block':
+                hb = v.value
     from ..events import data_events
     devs = [d for d in data_events(prog, f) if d.kind == 'DATA']
     # defaults on every visited node
@@ -331,7 +347,8 @@ def r_flags(prog, tier):
                     others = [v for v in r.values if unparse(v) != headlit]
                     for o in others:
                         terms = _bool_dnf_terms(o)
-                        want_terms = [{"not %s.data['split']" % cv}, {"%s.data[%s]" % (cv, 'h_block' if hb else "'head_block'")}]
+                        hbkey = unparse(d.ast.targets[0].slice)
+                        want_terms = [{"not %s.data['split']" % cv}, {"%s.data[%s]" % (cv, hbkey)}]
                         if sorted(map(sorted, terms)) != sorted(map(sorted, want_terms)):
                             shape_ok = False
             ok = shape_ok and bool(rest)
